@@ -20,7 +20,10 @@ func vrtChooseHeaderSmall(method AggregationMethod, xff float32) *Header {
 	if vrt.Tier() == 1 {
 		return vrtChooseHeader(method, xff)
 	}
-	ls := []string{"1s:2s", "5s:15s", "1s:2s,2s:6s", "60s:120s,120s:360s"}
+	return vrtChooseHeaderFrom([]string{"1s:2s", "5s:15s", "1s:2s,2s:6s", "60s:120s,120s:360s"}, method, xff)
+}
+
+func vrtChooseHeaderFrom(ls []string, method AggregationMethod, xff float32) *Header {
 	txt := ls[vrt.Choose("layout", len(ls))]
 	list, err := ParseArchiveInfoList(txt)
 	if err != nil {
@@ -124,15 +127,14 @@ func vrtAssumeClock(h *Header, now Timestamp) {
 	vrt.Assume(int64(now) >= int64(h.maxRetention)+2*int64(last.secondsPerPoint))
 }
 
-// vrtAssumeNear: T1 of DESIGN section 3: instant t (if non-zero) lies within 2^31-1 seconds of
-// the clock, with a margin of one maximum retention plus four coarsest steps (Duration is int32).
+// vrtAssumeNear: T1 of DESIGN section 3: instant t (if non-zero) lies within 2^30 seconds of
+// the clock, so that any two instants of one scenario (and their aligned neighbours one
+// retention away) differ by less than 2^31 - the range of the int32 Duration type.
 func vrtAssumeNear(h *Header, now, t Timestamp) {
-	last := h.archiveInfoList[len(h.archiveInfoList)-1]
-	margin := int64(h.maxRetention) + 4*int64(last.secondsPerPoint)
 	if t != 0 {
 		d := int64(now) - int64(t)
-		vrt.Assume(d <= 0x7fffffff-margin)
-		vrt.Assume(d >= -(0x7fffffff - margin))
+		vrt.Assume(d <= 0x3fffffff)
+		vrt.Assume(d >= -0x3fffffff)
 	}
 }
 
